@@ -5,8 +5,8 @@ For every spec: compile, run python_types (imported in-process) and python_type_
 (a) correspondence  - `ast.parse` of every `.pyi` reduced to data (classes with base / `__init__` parameters / annotated members;
     module-level names; imports) against `stubNs` of the Lean model for the same API description; the introspected runtime
     module reduced the same way against `rtNs`; the well-formedness predicates the theorems assume, evaluated by the model on
-    the description (`chainsOK`, `directCovered`; `refsCovered` / `aliasNamesStable` are recorded: they are exactly the two
-    hypotheses the real code can violate);
+    the description (`chainsOK`, `directCovered`; `refsCovered` is recorded: it is exactly the hypothesis the real code can
+    violate; `aliasNamesStable` is recorded too, it stopped being a hypothesis when D20 was repaired);
 (b) direct oracle   - independent of the model: judged names (classes of structs and unions, validators, alias names, route
     objects) of stub vs runtime per namespace; members with inheritance resolved on both sides; bases; constructor parameter
     names; every annotation against an independent Stone-type -> PEP 484 mapping computed from the IR; every name used in an
@@ -36,10 +36,13 @@ PRIM_FLOAT = ('Float32', 'Float64')
 # hand-written seeds (always run first)
 
 SEEDS = {
-    # D20: alias names that fmt_class changes; unused, so that the runtime module still imports
+    # D20 (repaired: both sides say As_validator): alias names that fmt_class changes. The alias of a union is unused, so
+    # that the runtime module imports (its class alias is bound under the raw name on both sides; C09 finding D39)
     'alias-not-fmt-class-fixed': [
         ('seed_d20.stone', 'namespace seed_d20\n\nalias AS = String\nalias HTTPCode = Int32\nalias Plain = String\n'
-                           'struct Holder\n    p Plain\n'),
+                           'struct Holder\n    p Plain\n    q AS\n    r HTTPCode?\n'
+                           'union Un\n    a\n    b Holder\n'
+                           'alias HTTPUnion = Un\nalias HTTPHolder = Holder\n'),
     ],
     # a namespace module needed only through the target of a foreign alias
     'foreign-alias-chain': [
@@ -765,7 +768,7 @@ def _judge(ck, case, api, built, rt_error, out, stub_error, model, fmt_namespace
         # what the theorems conclude, evaluated by the model on this description
         if wf['refs'] and not rep['closed']:
             ck.disagree('decl.stub.theorem-instance', case.case_dict(ns=n), 'refsCovered', 'not closed')
-        if wf['alias_stable'] and rep['judged_stub'] != rep['judged_rt']:
+        if rep['judged_stub'] != rep['judged_rt']:
             ck.disagree('decl.stub.theorem-instance', case.case_dict(ns=n), rep['judged_stub'], rep['judged_rt'])
         for t in rep['types']:
             if t['text_free'] and not t['norm_eq']:
@@ -861,7 +864,8 @@ def _oracle(ck, case, api, built, stubs, rts, fmt_namespace):
         ck.hist('judged-names-per-namespace', min(len(jr), 40) // 5 * 5)
         stub_only, rt_only = js - jr, jr - js
         if stub_only or rt_only:
-            # D20: the stub names the validator of an alias after fmt_class(alias.name), the runtime after alias.name
+            # D20 (repaired; kept as a distinct signature should it come back): the stub names the validator of an alias
+            # after fmt_class(alias.name), the runtime named it after alias.name
             explained = set()
             for a in ns.aliases:
                 s_name, r_name = ph.fmt_class(a.name) + '_validator', a.name + '_validator'
